@@ -177,6 +177,7 @@ def check(ctx):
                        nontrivial=False)
     check_names(ctx)
     check_lookup_keys(ctx)
+    check_count_denominators(ctx)
 
 
 # ----------------------------------------------------------------------
@@ -362,3 +363,51 @@ def check_lookup_keys(ctx):
                f"{fi.qual} adds the top-level key '{k}' to the marker "
                'lookup, which _run_mapping does not remove: it would be '
                'interpreted as a parent node')
+
+
+def check_count_denominators(ctx):
+    """a taxonomy may name clusters that have no cell in the reference
+    (the reference statistics stage writes zero rows for them): every
+    division by a cell count downstream must be protected, or the
+    cluster's mean becomes NaN and wins every arg-max of the mapping
+    stage.  Denominators are recognised by what they derive from (the
+    'n_cells' datum), and judged by the sign analysis of sa/rules/sign.py
+    (max(1, n) is positive)."""
+    from ..rules.sign import SignEval, POS
+    from ..core.slicing import backward_slice
+    db = ctx.db
+    rule = 'R-POS/cell-count-denominator'
+    n = 0
+    for fi in db.iter_functions():
+        if fi.module.short.startswith(('gpu_utils', 'corr.')):
+            continue
+        se = None
+        k = 0
+        for e in ast.walk(fi.node):
+            if not (isinstance(e, ast.BinOp) and isinstance(
+                    e.op, (ast.Div, ast.FloorDiv, ast.Mod))):
+                continue
+            sl = backward_slice(fi, e.right)
+            if 'n_cells' not in sl.consts \
+                    and 'n_cells' not in sl.attr_names():
+                continue
+            cfg = cfg_of(fi)
+            rd = rd_of(fi)
+            ns = [x for x in cfg.node_of_expr(e) if x.id in rd.live]
+            if not ns:
+                continue
+            if se is None:
+                se = SignEval(db, fi)
+            cls = se.eval(e.right, ns[0].id)
+            n += 1
+            ctx.touch(fi)
+            ok = cls == POS
+            ctx.ob(rule, f'{fi.qual}:div#{k}', fi.loc(e), ok,
+                   f'`{unparse(e.right)[:40]}` cannot be zero' if ok else
+                   f'`{unparse(e)[:70]}` divides by a cell count that is '
+                   'zero for a cluster without reference cells: the '
+                   'statistic becomes NaN and propagates into marker '
+                   'selection and mapping')
+            k += 1
+    if n < 3:
+        raise AnalysisError(f'only {n} divisions by a cell count found')
